@@ -127,12 +127,77 @@ func (c *Ctx) summariseArm(cc *ast.CaseClause, byteVar string) slotSummary {
 		}
 		rest = append(rest, st)
 	}
+	// an arm that never reads the children or the keys of the node (it only converts, returns or
+	// passes the typed node on) says nothing about slot order
+	{
+		reads := false
+		for _, st := range rest {
+			ast.Inspect(st, func(n ast.Node) bool {
+				if sel, ok := n.(*ast.SelectorExpr); ok && (sel.Sel.Name == "children" || sel.Sel.Name == "keys") {
+					reads = true
+				}
+				return true
+			})
+		}
+		if !reads {
+			s.form = "dispatch"
+			s.child = "(no slot access)"
+			return s
+		}
+	}
 	if a.node == "" {
 		s.why = "no typed node variable"
 		return s
 	}
 	if byteVar != "" {
 		a.idx[byteVar] = "ι"
+	}
+	// slice-append enumeration: q = append(q, N.children[:N.childrenLen]...) – ascending; followed
+	// by a reversal of the appended part – descending
+	if len(rest) >= 1 {
+		var appended ast.Expr
+		reversed := false
+		okForm := true
+		for _, st := range rest {
+			switch x := st.(type) {
+			case *ast.AssignStmt:
+				if x.Tok == token.DEFINE && len(x.Lhs) == 1 && len(x.Rhs) == 1 {
+					if call, ok := ast.Unparen(x.Rhs[0]).(*ast.CallExpr); ok && isBuiltinCall(info, call, "len") {
+						continue // top := len(q)
+					}
+				}
+				if len(x.Lhs) == 1 && len(x.Rhs) == 1 {
+					if call, ok := ast.Unparen(x.Rhs[0]).(*ast.CallExpr); ok && isBuiltinCall(info, call, "append") && len(call.Args) == 2 && call.Ellipsis.IsValid() {
+						appended = call.Args[1]
+						continue
+					}
+				}
+				okForm = false
+			case *ast.ExprStmt:
+				if call, ok := x.X.(*ast.CallExpr); ok && c.m.calleeName(call) == "slices.Reverse" && len(call.Args) == 1 {
+					if _, isSlice := ast.Unparen(call.Args[0]).(*ast.SliceExpr); isSlice && appended != nil {
+						reversed = true
+						continue
+					}
+				}
+				okForm = false
+			default:
+				okForm = false
+			}
+		}
+		if okForm && appended != nil {
+			if se, ok := ast.Unparen(appended).(*ast.SliceExpr); ok && se.Low == nil && se.High != nil {
+				a.idx["ι"] = "ι"
+				s.form = "enumerate"
+				s.domain = a.norm(se.High)
+				s.child = a.norm(se.X) + "[ι]"
+				s.dir = "asc"
+				if reversed {
+					s.dir = "desc"
+				}
+				return s
+			}
+		}
 	}
 	// dispatch: a single method call on the typed node
 	if len(rest) == 1 {
@@ -324,7 +389,7 @@ func (c *Ctx) summariseArm(cc *ast.CaseClause, byteVar string) slotSummary {
 			case *ast.AssignStmt:
 				if x.Tok == token.DEFINE && len(x.Lhs) == 1 && len(x.Rhs) == 1 {
 					name := x.Lhs[0].(*ast.Ident).Name
-					if call, ok := ast.Unparen(x.Rhs[0]).(*ast.CallExpr); ok && strings.HasPrefix(c.m.calleeName(call), "searchNode") {
+					if call, ok := ast.Unparen(x.Rhs[0]).(*ast.CallExpr); ok && (strings.HasPrefix(c.m.calleeName(call), "searchNode") || c.searchWrapper(c.m.calleeUnit(call)) != nil) {
 						searchVars[name] = true
 						a.idx[name] = "ι"
 						domain = "N.childrenLen"
@@ -340,7 +405,7 @@ func (c *Ctx) summariseArm(cc *ast.CaseClause, byteVar string) slotSummary {
 				if x.Init != nil {
 					if as, ok := x.Init.(*ast.AssignStmt); ok && as.Tok == token.DEFINE && len(as.Lhs) == 1 {
 						name := as.Lhs[0].(*ast.Ident).Name
-						if call, ok := ast.Unparen(as.Rhs[0]).(*ast.CallExpr); ok && strings.HasPrefix(c.m.calleeName(call), "searchNode") {
+						if call, ok := ast.Unparen(as.Rhs[0]).(*ast.CallExpr); ok && (strings.HasPrefix(c.m.calleeName(call), "searchNode") || c.searchWrapper(c.m.calleeUnit(call)) != nil) {
 							searchVars[name] = true
 							a.idx[name] = "ι"
 							domain = "N.childrenLen"
@@ -349,6 +414,34 @@ func (c *Ctx) summariseArm(cc *ast.CaseClause, byteVar string) slotSummary {
 						} else {
 							okShape = false
 						}
+					}
+				}
+				// inverted form: if <not found> { return nil / break / continue } – the use follows
+				if x.Else == nil && len(x.Body.List) == 1 {
+					skip := false
+					switch y := x.Body.List[0].(type) {
+					case *ast.ReturnStmt:
+						skip = len(y.Results) >= 1 && info.Types[y.Results[0]].IsNil()
+					case *ast.BranchStmt:
+						skip = true
+					}
+					if skip {
+						for _, o := range a.occFromSkip(x.Cond) {
+							// drop tests on the search result itself
+							drop := false
+							for sv := range searchVars {
+								if strings.HasPrefix(o, a.idx[sv]+" ") || strings.HasPrefix(o, sv+" ") {
+									drop = true
+								}
+							}
+							if strings.HasPrefix(o, "ι ") {
+								drop = true
+							}
+							if !drop {
+								occ = append(occ, o)
+							}
+						}
+						continue
 					}
 				}
 				occ = append(occ, a.occFromGuard(x.Cond, searchVars)...)
@@ -368,6 +461,14 @@ func (c *Ctx) summariseArm(cc *ast.CaseClause, byteVar string) slotSummary {
 					}
 					return true
 				})
+			case *ast.ReturnStmt:
+				if len(x.Results) == 1 {
+					if ue, ok := ast.Unparen(x.Results[0]).(*ast.UnaryExpr); ok && ue.Op == token.AND {
+						use = ue.X
+						continue
+					}
+				}
+				okShape = false
 			default:
 				okShape = false
 			}
@@ -657,7 +758,7 @@ func ruleR09R19(c *Ctx) {
 		searchVar := map[*types.Var]*ast.CallExpr{}
 		ast.Inspect(u.Body, func(n ast.Node) bool {
 			if as, ok := n.(*ast.AssignStmt); ok && len(as.Lhs) == 1 && len(as.Rhs) == 1 {
-				if call, ok := ast.Unparen(as.Rhs[0]).(*ast.CallExpr); ok && strings.HasPrefix(c.m.calleeName(call), "searchNode") {
+				if call, ok := ast.Unparen(as.Rhs[0]).(*ast.CallExpr); ok && (strings.HasPrefix(c.m.calleeName(call), "searchNode") || c.searchWrapper(c.m.calleeUnit(call)) != nil) {
 					if v := identVar(info, as.Lhs[0]); v != nil {
 						searchVar[v] = call
 					}
@@ -744,8 +845,21 @@ func ruleR09R19(c *Ctx) {
 					c.r.bad("R19", key, m.pos(n.Pos()), "the search returns -1 when no lane matches; its result is used as an index without a dominating test "+v.Name()+" != -1, so probing an absent byte faults", props...)
 				}
 			}
-			if c.m.calleeName(searchVar[v]) != "searchNode4" {
+			wrap := c.searchWrapper(c.m.calleeUnit(searchVar[v]))
+			if c.m.calleeName(searchVar[v]) != "searchNode4" && (wrap == nil || !wrap.lanes4) {
 				return // the 16-lane search masks unoccupied lanes itself (R20)
+			}
+			if wrap != nil && wrap.bounded >= 0 {
+				// the wrapper only hands out results below the count it is given: that count must be
+				// the fill count of the node whose array is indexed
+				if a := argFor(searchVar[v], wrap.bounded); a != nil {
+					if asel, ok := ast.Unparen(a).(*ast.SelectorExpr); ok && asel.Sel.Name == "childrenLen" && fl.raw.canon(asel.X) == fl.raw.canon(sel.X) {
+						n19++
+						c.r.ok("R19", fmt.Sprintf("%s %s indexed by 4-lane search result %s", u.Name, display(fl.raw.canon(base)), v.Name()), m.pos(n.Pos()),
+							"the search helper returns a lane only when it is below the fill count it is given, here "+display(fl.raw.canon(a)), props...)
+						return
+					}
+				}
 			}
 			n19++
 			key := fmt.Sprintf("%s %s indexed by 4-lane search result %s", u.Name, display(fl.raw.canon(base)), v.Name())
@@ -828,4 +942,123 @@ func idxOrNil(e ast.Expr) ast.Expr {
 		return &ast.Ident{Name: "_"}
 	}
 	return e
+}
+
+
+// searchWrapper: a library function that returns the result of a lane search (searchNode4/16 or
+// another wrapper) or -1. bounded is the index of the parameter p such that every returned search
+// result r satisfies r < p (the fill count), or -1.
+type searchWrap struct {
+	lanes4  bool // wraps the 4-lane search
+	bounded int
+}
+
+func (c *Ctx) searchWrapper(u *FuncUnit) *searchWrap {
+	if u == nil || u.Body == nil || u.Lit != nil {
+		return nil
+	}
+	if c.swMemo == nil {
+		c.swMemo = map[*FuncUnit]*searchWrap{}
+	}
+	if w, ok := c.swMemo[u]; ok {
+		return w
+	}
+	c.swMemo[u] = nil
+	info := c.m.Info
+	var sv *types.Var
+	lanes4 := false
+	nCalls := 0
+	ast.Inspect(u.Body, func(n ast.Node) bool {
+		as, ok := n.(*ast.AssignStmt)
+		if !ok || len(as.Lhs) != 1 || len(as.Rhs) != 1 {
+			return true
+		}
+		call, ok := ast.Unparen(as.Rhs[0]).(*ast.CallExpr)
+		if !ok {
+			return true
+		}
+		name := c.m.calleeName(call)
+		inner := c.searchWrapper(c.m.calleeUnit(call))
+		if strings.HasPrefix(name, "searchNode") || inner != nil {
+			nCalls++
+			sv = identVar(info, as.Lhs[0])
+			lanes4 = name == "searchNode4" || (inner != nil && inner.lanes4)
+		}
+		return true
+	})
+	if nCalls != 1 || sv == nil {
+		return nil
+	}
+	g := c.m.cfgOf(u)
+	guards := guardsOf(info, g)
+	w := &searchWrap{lanes4: lanes4, bounded: -2}
+	okAll := true
+	for _, b := range g.Blocks {
+		if !b.Live {
+			continue
+		}
+		for _, n := range b.Nodes {
+			rs, ok := n.(*ast.ReturnStmt)
+			if !ok || len(rs.Results) != 1 {
+				continue
+			}
+			if tv, has := info.Types[rs.Results[0]]; has && tv.Value != nil {
+				if tv.Value.ExactString() != "-1" {
+					okAll = false
+				}
+				continue
+			}
+			if identVar(info, rs.Results[0]) != sv {
+				okAll = false
+				continue
+			}
+			// which parameter bounds the returned result here?
+			bound := -1
+			for _, gd := range guards {
+				if !edgeDominates(g, gd.b, gd.succ, b) {
+					continue
+				}
+				be, ok := ast.Unparen(gd.atom.e).(*ast.BinaryExpr)
+				if !ok {
+					continue
+				}
+				op := be.Op
+				if !gd.atom.val {
+					op = map[token.Token]token.Token{token.LSS: token.GEQ, token.GEQ: token.LSS, token.GTR: token.LEQ, token.LEQ: token.GTR}[op]
+				}
+				l, r := ast.Unparen(be.X), ast.Unparen(be.Y)
+				if op == token.GTR {
+					l, r, op = r, l, token.LSS
+				}
+				if op != token.LSS || identVar(info, l) != sv {
+					continue
+				}
+				for {
+					if cv, ok := r.(*ast.CallExpr); ok && isConversion(info, cv) && len(cv.Args) == 1 {
+						r = ast.Unparen(cv.Args[0])
+						continue
+					}
+					break
+				}
+				if id, ok := r.(*ast.Ident); ok {
+					if pi := c.m.paramIndex(u, id); pi >= 0 {
+						bound = pi
+					}
+				}
+			}
+			if w.bounded == -2 {
+				w.bounded = bound
+			} else if w.bounded != bound {
+				w.bounded = -1
+			}
+		}
+	}
+	if !okAll {
+		return nil
+	}
+	if w.bounded == -2 {
+		w.bounded = -1
+	}
+	c.swMemo[u] = w
+	return w
 }
